@@ -295,7 +295,9 @@ class Kernel:
                 return True
         cur = self.cur
         if timeout_ticks is not None and timeout_ticks <= 0:
-            while self.heap and self.heap[0][0] <= self.now:
+            # a poll sees what a blocking call would have been woken by: due events fire one at a time until the
+            # condition holds (so a delivery and the reset queued right behind it stay two separate observations)
+            while not pred() and self.heap and self.heap[0][0] <= self.now:
                 _, _, fn, args = heapq.heappop(self.heap)
                 self._fire(fn, args)
             return bool(pred())
